@@ -213,7 +213,12 @@ def rule(ctx: Context, R: Reporter):
                     msg=f"{fi.short}: `{unparse(hz)[:70]}` exponentiates a value of type {ht!r}: the result scales by exp(k*c) and under/overflows for a large likelihood offset, so the "
                         f"run is not unchanged \"up to rounding\" (subtract the maximum or use differences first)", key=f"exp-hazard:{k[1]}")
         # returns of the steps' public `run` methods and of the weight/ESS helpers must be shift-free (except evidence-like)
-        if fi.name in ("run", "_compute_metric_and_weights", "_finalize_iteration", "_compute_acceptance_factor", "_not_termination") or (fi.cls is None and fi.module.name == "tempest.tools"):
+        # (the weight / ESS helpers are the module-level functions of tools.py in the reference tree; a helper that is new there
+        # has no such contract -- e.g. a log-density moved over from the weight function legitimately shifts)
+        from ..normalize import baseline_table as _bt
+
+        if fi.name in ("run", "_compute_metric_and_weights", "_finalize_iteration", "_compute_acceptance_factor", "_not_termination") or (
+                fi.cls is None and fi.module.name == "tempest.tools" and f"{fi.module.name}:{fi.short}" in _bt()):
             for (r, t) in rets:
                 comps = t.items if t.kind == "tuple" else [t]
                 for i, c in enumerate(comps):
